@@ -256,6 +256,8 @@ def main():
         (HERE / "evidence" / f"{prop}.json").write_text(json.dumps(ev, indent=1, default=str))
     print(f"[{prop}] tier={tier} obligations={n_ob} discharged={len(discharged)} refuted={len(refuted)} "
           f"(known {len(known_hits)}) undecided={len(undecided)} units={len(units)} paths={paths} solver={solver_s:.1f}s wall={wall:.1f}s exit={exit_code}")
+    slow = sorted(recs, key=lambda r: -r.get("seconds", 0))[:3]
+    print("  slowest: " + "; ".join(f"{r['name']} {r['seconds']}s {r['verdict']}" for r in slow))
     if a.v:
         for r in recs:
             if r["verdict"] != "discharged":
